@@ -120,6 +120,19 @@ def windows(run, tier, table):
                     continue
                 if np.any(g < 0) or not np.all(np.isfinite(g)):
                     run.violation({"kind": "gamma_window_negative_or_nonfinite", "order": order, "peak": peak, "width": w})
+                if w >= 2:
+                    t = np.arange(w - 1, -1, -1, dtype=float)
+                    if order > 1:
+                        a = (order - 1) / (w - peak * w)
+                        want = a ** order * t ** (order - 1) * np.exp(-a * t) / math.factorial(order - 1)
+                        if not np.allclose(g, want, rtol=1e-9, atol=1e-300):
+                            run.violation({"kind": "gamma_window_not_reversed_gamma_density", "order": order, "peak": peak, "width": w,
+                                           "first_off": int(np.argwhere(~np.isclose(g, want, rtol=1e-9, atol=1e-300))[0][0])})
+                    else:
+                        # order 1: a decaying exponential in reversed time, its maximum (t = 0) is the last sample
+                        r = g[:-1] / g[1:] if np.all(g[1:] > 0) else np.array([np.nan])
+                        if not (g[-1] > 0 and int(np.argmax(g)) == w - 1 and np.allclose(r, r[0], rtol=1e-9) and r[0] < 1):
+                            run.violation({"kind": "gamma_window_order1_not_exponential", "peak": peak, "width": w, "last": float(g[-1])})
                 if order > 1 and w >= 8 and abs(int(np.argmax(g)) - peak * w) > 1.5:
                     run.violation({"kind": "gamma_window_peak_misplaced", "order": order, "peak": peak, "width": w, "argmax": int(np.argmax(g))})
 
